@@ -387,3 +387,186 @@ def check_arc_domain(ctx, repo: Repo, pid: str, module_names: List[str], report_
     if not bad:
         ctx.ok("ARCDOM", f"{pid}.arcdomain", f"every arccos/arcsin of a product or quotient ({seen} calls in scope) is clipped or rounded into "
                "the domain first (positive control matched)", ", ".join(module_names)[:160])
+
+
+# ---------------------------------------------------------------------------------------------------------------------------
+# EMPTYIDX: an index array built from a FILTERED selection without an integer dtype
+
+EI_CONTROL = '''
+def control(x, regions):
+    closed = np.array([k for k, r in enumerate(regions) if -1 not in r])
+    x[closed] = 1.0
+    kept = np.array([k for k, r in enumerate(regions) if -1 not in r], dtype=int)
+    x[kept] = 2.0
+    vals = np.array([v for v in x if v > 0])
+    return x, vals.sum()
+'''
+
+
+def _empty_index(trees):
+    """-> (number of filtered-selection arrays, [(where, relpath, text, name)] such arrays used as an index without an integer dtype)"""
+    seen, bad = 0, []
+    for rel, tree in trees:
+        for fn in [n for n in ast.walk(tree) if isinstance(n, (ast.FunctionDef, ast.AsyncFunctionDef))]:
+            stores = {}
+            for n in ast.walk(fn):
+                if isinstance(n, ast.Assign) and len(n.targets) == 1 and isinstance(n.targets[0], ast.Name):
+                    stores.setdefault(n.targets[0].id, []).append(n.value)
+            cands = {}
+            for nm, vs in stores.items():
+                if len(vs) != 1:
+                    continue
+                v = vs[0]
+                if not (isinstance(v, ast.Call) and ast.unparse(v.func) in ("np.array", "numpy.array", "np.asarray", "numpy.asarray") and len(v.args) == 1 and
+                        not any(k.arg == "dtype" for k in v.keywords)):
+                    continue
+                a0 = v.args[0]
+                if isinstance(a0, ast.Name) and len(stores.get(a0.id, [])) == 1:
+                    a0 = stores[a0.id][0]
+                if isinstance(a0, ast.ListComp) and any(g.ifs for g in a0.generators):
+                    seen += 1
+                    cands[nm] = v
+            if not cands:
+                continue
+            # an emptiness guard (`if len(name)` / `name.size`) anywhere in the function is taken as handling the case
+            guarded = {nm for nm in cands for n in ast.walk(fn) if isinstance(n, (ast.If, ast.IfExp, ast.Assert)) and
+                       any(isinstance(x, ast.Name) and x.id == nm for x in ast.walk(n.test))}
+            for n in ast.walk(fn):
+                if isinstance(n, ast.Subscript):
+                    idx = n.slice.elts if isinstance(n.slice, ast.Tuple) else [n.slice]
+                    for x in idx:
+                        if isinstance(x, ast.Name) and x.id in cands and x.id not in guarded:
+                            bad.append((f"{rel}:{fn.name}", rel, ast.unparse(n)[:120], x.id))
+    return seen, bad
+
+
+def check_empty_index(ctx, repo: Repo, pid: str, module_names: List[str], report_modules=None):
+    """EMPTYIDX: `sel = np.array([k for k in ... if cond])` has dtype float64 when nothing passes the filter; `x[sel]` then raises
+    IndexError (arrays used as indices must be of integer or boolean type) instead of selecting nothing."""
+    s_, b_ = _empty_index([("<control>", ast.parse(EI_CONTROL))])
+    if s_ != 2 or [x[3] for x in b_] != ["closed"]:
+        ctx.inconclusive("EMPTYIDX", f"{pid}.emptyindex.control", "positive control of the empty-index rule did not match", "<control>")
+        return
+    trees = [(repo.module(mn).relpath, repo.module(mn).tree) for mn in module_names]
+    seen, bad = _empty_index(trees)
+    rep = {repo.module(m).relpath for m in (report_modules or module_names) if m in repo.modules}
+    bad = [b for b in bad if b[1] in rep]
+    ctx.instance("EMPTYIDX", seen + 1)
+    done = set()
+    for where, rel, text, name in bad:
+        if (where, name) in done:
+            continue
+        done.add((where, name))
+        ctx.violate("EMPTYIDX", f"{pid}.emptyindex", f"`{name}` is an array built from a filtered selection without an integer dtype and is used as an "
+                    "index: when no element passes the filter it is an empty float64 array and the subscript raises IndexError (not a "
+                    "deliberate ValueError, and not the empty selection that was meant)", where, text,
+                    witness=f"np.array([]).dtype == float64  ->  x[{name}] raises IndexError")
+    if not bad:
+        ctx.ok("EMPTYIDX", f"{pid}.emptyindex", f"no index array is built from a filtered selection without an integer dtype ({seen} filtered-selection "
+               "arrays in scope; positive control matched)", ", ".join(module_names)[:160])
+
+
+# ---------------------------------------------------------------------------------------------------------------------------
+# LENGUARD: a size guard that is weaker than what the guarded code indexes (contradiction between a stated belief and a use)
+
+LG_CONTROL = '''
+def order(p):
+    if p.shape[0] == 1:
+        return p
+    return np.cross(p[1] - p[0], p[2] - p[0])
+def fine(p):
+    return p[1] - p[0]
+def caller(polys):
+    out = []
+    for poly in polys:
+        if len(poly) > 1:
+            out.append(order(poly))
+            out.append(fine(poly))
+    return out
+'''
+
+
+def _len_guards(trees):
+    """-> (guarded call sites examined, [(where, relpath, text, msg)]).  For a module-level function F(P, ..) that reads P[k] for
+    constants k >= 0, and a call F(x) that is dominated by a guard `len(x) > c` / `>= c` / `x.shape[0] > c`: the guard admits the
+    length m = smallest admitted value not excluded by F's own `if P.shape[0] == e: return`; if m <= max k the call can raise
+    IndexError for exactly the sizes the guard was written to let through."""
+    funcs = {}
+    for rel, tree in trees:
+        for fn in tree.body:
+            if isinstance(fn, ast.FunctionDef) and fn.args.args:
+                funcs.setdefault(fn.name, (rel, fn))
+    need = {}
+    for name, (rel, fn) in funcs.items():
+        for pos, a in enumerate(fn.args.args):
+            p = a.arg
+            if any(isinstance(n, (ast.Assign, ast.AugAssign)) and any(isinstance(t, ast.Name) and t.id == p for t in
+                   (n.targets if isinstance(n, ast.Assign) else [n.target])) for n in ast.walk(fn)):
+                continue
+            ks = [n.slice.value for n in ast.walk(fn) if isinstance(n, ast.Subscript) and isinstance(n.value, ast.Name) and n.value.id == p and
+                  isinstance(n.slice, ast.Constant) and isinstance(n.slice.value, int) and not isinstance(n.slice.value, bool) and n.slice.value >= 0]
+            if not ks:
+                continue
+            excluded = set()
+            for n in ast.walk(fn):
+                if isinstance(n, ast.If) and isinstance(n.test, ast.Compare) and len(n.test.ops) == 1 and isinstance(n.test.ops[0], ast.Eq) and \
+                        isinstance(n.test.comparators[0], ast.Constant) and isinstance(n.test.comparators[0].value, int) and \
+                        ast.unparse(n.test.left) in (f"{p}.shape[0]", f"len({p})") and any(isinstance(x, (ast.Return, ast.Raise)) for x in n.body):
+                    excluded.add(n.test.comparators[0].value)
+            need[(name, pos)] = (max(ks), excluded, p)
+    sites, bad = 0, []
+    for rel, tree in trees:
+        for fn in [n for n in ast.walk(tree) if isinstance(n, (ast.FunctionDef, ast.AsyncFunctionDef))]:
+            parents = {}
+            for n in ast.walk(fn):
+                for ch in ast.iter_child_nodes(n):
+                    parents[id(ch)] = n
+            for call in [n for n in ast.walk(fn) if isinstance(n, ast.Call) and isinstance(n.func, ast.Name) and n.func.id in funcs]:
+                for pos, arg in enumerate(call.args):
+                    if (call.func.id, pos) not in need or not isinstance(arg, ast.Name):
+                        continue
+                    kmax, excluded, pname = need[(call.func.id, pos)]
+                    # enclosing guards on the length of this very argument (body branch only)
+                    lb = None
+                    node = call
+                    while id(node) in parents:
+                        par = parents[id(node)]
+                        if isinstance(par, ast.If) and any(node is b or any(node is x for x in ast.walk(b)) for b in par.body):
+                            t = par.test
+                            if isinstance(t, ast.Compare) and len(t.ops) == 1 and isinstance(t.comparators[0], ast.Constant) and \
+                                    isinstance(t.comparators[0].value, int) and ast.unparse(t.left) in (f"len({arg.id})", f"{arg.id}.shape[0]"):
+                                c = t.comparators[0].value
+                                b_ = c + 1 if isinstance(t.ops[0], ast.Gt) else c if isinstance(t.ops[0], ast.GtE) else None
+                                if b_ is not None:
+                                    lb = b_ if lb is None else max(lb, b_)
+                        node = par
+                    if lb is None:
+                        continue
+                    sites += 1
+                    m = lb
+                    while m in excluded:
+                        m += 1
+                    if m <= kmax:
+                        bad.append((f"{rel}:{fn.name}", rel, ast.unparse(call)[:120],
+                                    f"the guard admits len({arg.id}) == {m}, but {call.func.id} reads {pname}[{kmax}]"))
+    return sites, bad
+
+
+def check_len_guards(ctx, repo: Repo, pid: str, module_names: List[str], report_modules=None):
+    """LENGUARD (contradiction rule): a call is guarded by a minimum length that the callee's constant subscripts exceed."""
+    s_, b_ = _len_guards([("<control>", ast.parse(LG_CONTROL))])
+    if s_ != 2 or len(b_) != 1 or "order" not in b_[0][2]:
+        ctx.inconclusive("LENGUARD", f"{pid}.lenguard.control", "positive control of the length-guard rule did not match", "<control>", witness=str((s_, b_)))
+        return
+    trees = [(repo.module(mn).relpath, repo.module(mn).tree) for mn in module_names]
+    sites, bad = _len_guards(trees)
+    rep = {repo.module(m).relpath for m in (report_modules or module_names) if m in repo.modules}
+    bad = [b for b in bad if b[1] in rep]
+    ctx.instance("LENGUARD", sites + 1)
+    for where, rel, text, msg in bad:
+        ctx.violate("LENGUARD", f"{pid}.lenguard", "a size guard lets through a sequence that is shorter than what the guarded routine indexes: "
+                    "for exactly the small sizes the guard was written for the call raises IndexError (not a deliberate ValueError)", where, text,
+                    witness=msg)
+    if not bad:
+        ctx.ok("LENGUARD", f"{pid}.lenguard", f"every length-guarded call ({sites} sites) admits only sequences long enough for the constant "
+               "subscripts of its callee (positive control matched)", ", ".join(module_names)[:160])
